@@ -544,6 +544,7 @@ impl Prop for C08 {
                     continue;
                 }
                 let case = TermCase::FenRun { fen: CURATED[c].to_string(), run_ms: 1200, via_uci };
+                ctx.note_inflight("C08", &case);
                 if let Err(f) = Prop::check(self, ctx, &case, ev) {
                     report(case, f);
                     return;
